@@ -1,1 +1,635 @@
-fn main() {}
+//! C05 — Graph stays structurally consistent under any operations and threads.
+//!
+//! * `seq`   generated sequences of node/edge create/update/delete (self-loops, parallel edges,
+//!           directed and undirected) against a model edge set; after every op every read API
+//!           must say exactly what the set of existing edges implies.
+//! * `sched` 2–8 scripted threads over ≤ 5 shared nodes under the deterministic scheduler with the
+//!           `graph.adj.rmw` yield point inside the adjacency read-modify-write; at quiescence the
+//!           order-free structural invariants must hold and every edge whose creation returned Ok
+//!           (and that nobody deleted) must be fully linked.
+//! * `stress` real threads, barrier start, hub-heavy creates (thorough and a small quick share).
+
+use graph_engine::{Direction, GraphEngine, PropertyValue};
+use nv_engine::{main_for, pick, sched, CaseCtx, CustomPart, Fail, PropDef, PropPart, Tier, Violation};
+use proptest::prelude::*;
+use serde::{Deserialize, Serialize};
+use std::collections::{BTreeMap, BTreeSet, HashMap};
+use std::sync::{Arc, Mutex};
+use std::time::Duration;
+
+#[derive(Clone, Debug, Serialize, Deserialize)]
+enum Op {
+    CreateNode,
+    /// endpoints as indices into the node pool, edge type 0/1, directed?
+    CreateEdge(u16, u16, u8, bool),
+    DeleteEdge(u16),
+    DeleteNode(u16),
+    UpdateNode(u16, i64),
+    UpdateEdge(u16, i64),
+}
+
+fn op_strategy(hub: bool) -> impl Strategy<Value = Op> {
+    // hub = endpoints skewed to low indices so that lists are shared
+    let ep = if hub { prop_oneof![3 => Just(0u16), 2 => any::<u16>()].boxed() } else { any::<u16>().boxed() };
+    let ep2 = if hub { prop_oneof![1 => Just(0u16), 3 => any::<u16>()].boxed() } else { any::<u16>().boxed() };
+    prop_oneof![
+        3 => Just(Op::CreateNode),
+        10 => (ep, ep2, 0u8..2, any::<bool>()).prop_map(|(a, b, t, d)| Op::CreateEdge(a, b, t, d)),
+        3 => any::<u16>().prop_map(Op::DeleteEdge),
+        2 => any::<u16>().prop_map(Op::DeleteNode),
+        1 => (any::<u16>(), 0i64..5).prop_map(|(n, v)| Op::UpdateNode(n, v)),
+        1 => (any::<u16>(), 0i64..5).prop_map(|(e, v)| Op::UpdateEdge(e, v)),
+    ]
+}
+
+// ------------------------------------------------------------------ model + structural checks
+
+#[derive(Clone, Debug, PartialEq, Eq)]
+struct MEdge {
+    from: u64,
+    to: u64,
+    ty: String,
+    directed: bool,
+}
+
+#[derive(Default)]
+struct Model {
+    nodes: BTreeSet<u64>,
+    edges: BTreeMap<u64, MEdge>,
+}
+
+impl Model {
+    fn out_list(&self, n: u64) -> BTreeSet<u64> {
+        self.edges.iter().filter(|(_, e)| e.from == n || (!e.directed && e.to == n)).map(|(id, _)| *id).collect()
+    }
+    fn in_list(&self, n: u64) -> BTreeSet<u64> {
+        self.edges.iter().filter(|(_, e)| e.to == n || (!e.directed && e.from == n)).map(|(id, _)| *id).collect()
+    }
+    fn other(&self, id: u64, n: u64) -> u64 {
+        let e = &self.edges[&id];
+        if e.from == n {
+            e.to
+        } else {
+            e.from
+        }
+    }
+}
+
+fn ty(t: u8) -> &'static str {
+    if t % 2 == 0 {
+        "knows"
+    } else {
+        "likes"
+    }
+}
+
+/// Everything the read APIs say must be what the model edge set implies.
+fn check_against_model(g: &GraphEngine, m: &Model, ctx: &mut CaseCtx, when: &str) -> Result<(), Fail> {
+    // edges exist with the right endpoints
+    let all: BTreeMap<u64, MEdge> = g
+        .all_edges()
+        .into_iter()
+        .map(|e| (e.id, MEdge { from: e.from, to: e.to, ty: e.edge_type.clone(), directed: e.directed }))
+        .collect();
+    if all != m.edges {
+        let missing: Vec<_> = m.edges.keys().filter(|k| !all.contains_key(k)).collect();
+        let extra: Vec<_> = all.keys().filter(|k| !m.edges.contains_key(k)).collect();
+        ctx.fail("all_edges-differs", format!("{when}: all_edges() misses {missing:?}, has extra {extra:?} (or endpoints differ)"))?;
+    }
+    for (id, e) in &m.edges {
+        match g.get_edge(*id) {
+            Ok(x) if x.from == e.from && x.to == e.to && x.directed == e.directed && x.edge_type == e.ty => {},
+            other => ctx.fail("get_edge-differs", format!("{when}: get_edge({id}) = {:?}, model {e:?}", other.map(|x| (x.from, x.to, x.directed))))?,
+        }
+    }
+    let live: BTreeSet<u64> = g.all_nodes().into_iter().map(|n| n.id).collect();
+    if live != m.nodes {
+        ctx.fail("all_nodes-differs", format!("{when}: all_nodes() = {live:?}, model {:?}", m.nodes))?;
+    }
+    for n in &m.nodes {
+        if !g.node_exists(*n) {
+            ctx.fail("node-missing", format!("{when}: node {n} does not exist"))?;
+        }
+        let exp_out = m.out_list(*n);
+        let exp_in = m.in_list(*n);
+        for (dir, exp, name) in [
+            (Direction::Outgoing, exp_out.clone(), "Outgoing"),
+            (Direction::Incoming, exp_in.clone(), "Incoming"),
+            (Direction::Both, exp_out.union(&exp_in).copied().collect::<BTreeSet<u64>>(), "Both"),
+        ] {
+            let got: Vec<u64> = g.edges_of(*n, dir).map_err(|e| Fail::new("edges_of-error", format!("{when}: edges_of({n},{name}) failed: {e}")))?.into_iter().map(|e| e.id).collect();
+            let got_set: BTreeSet<u64> = got.iter().copied().collect();
+            if got_set != exp || got.len() != got_set.len() {
+                let sig = if got_set.is_subset(&exp) { "edge-not-listed" } else { "listed-edge-wrong" };
+                ctx.fail(format!("{sig}:edges_of-{name}"), format!("{when}: edges_of({n},{name}) = {got:?}, the existing edges imply {exp:?}"))?;
+            }
+        }
+        let od = g.out_degree(*n).unwrap_or(usize::MAX);
+        let id = g.in_degree(*n).unwrap_or(usize::MAX);
+        if od != exp_out.len() || id != exp_in.len() {
+            ctx.fail("degree-differs", format!("{when}: node {n}: out_degree {od} in_degree {id}, the existing edges imply {} / {}", exp_out.len(), exp_in.len()))?;
+        }
+        if g.degree(*n).unwrap_or(usize::MAX) != exp_out.len() + exp_in.len() {
+            ctx.fail("degree-differs", format!("{when}: node {n}: degree() is not out+in"))?;
+        }
+        for (dir, list, name) in [(Direction::Outgoing, &exp_out, "Outgoing"), (Direction::Incoming, &exp_in, "Incoming")] {
+            let exp_nb: BTreeSet<u64> = list.iter().map(|e| m.other(*e, *n)).filter(|o| o != n).collect();
+            let got_nb: BTreeSet<u64> = g.neighbors(*n, None, dir, None).map_err(|e| Fail::new("neighbors-error", format!("{when}: {e}")))?.into_iter().map(|x| x.id).collect();
+            if got_nb != exp_nb {
+                ctx.fail(format!("neighbors-differ:{name}"), format!("{when}: neighbors({n},{name}) = {got_nb:?}, the existing edges imply {exp_nb:?}"))?;
+            }
+            // typed neighbours
+            let exp_t: BTreeSet<u64> = list.iter().filter(|e| m.edges[*e].ty == "knows").map(|e| m.other(*e, *n)).filter(|o| o != n).collect();
+            let got_t: BTreeSet<u64> = g.neighbors(*n, Some("knows"), dir, None).map(|v| v.into_iter().map(|x| x.id).collect()).unwrap_or_default();
+            if got_t != exp_t {
+                ctx.fail(format!("neighbors-differ:typed-{name}"), format!("{when}: neighbors({n},knows,{name}) = {got_t:?}, expected {exp_t:?}"))?;
+            }
+        }
+    }
+    // traversal from the two lowest nodes
+    for start in m.nodes.iter().take(2) {
+        let mut seen: BTreeSet<u64> = BTreeSet::new();
+        let mut frontier = vec![*start];
+        seen.insert(*start);
+        while let Some(x) = frontier.pop() {
+            for e in m.out_list(x) {
+                let o = m.other(e, x);
+                if seen.insert(o) {
+                    frontier.push(o);
+                }
+            }
+        }
+        let got: BTreeSet<u64> = g.traverse(*start, Direction::Outgoing, 64, None, None).map_err(|e| Fail::new("traverse-error", format!("{when}: {e}")))?.into_iter().map(|n| n.id).collect();
+        if got != seen {
+            ctx.fail("traverse-differs", format!("{when}: traverse({start},Outgoing) = {got:?}, reachable over the existing edges: {seen:?}"))?;
+        }
+    }
+    Ok(())
+}
+
+/// Order-free structural invariants read from the store alone (used at quiescence after threads).
+fn check_structure(g: &GraphEngine, known_nodes: &[u64], ctx: &mut CaseCtx, when: &str) -> Result<(), Fail> {
+    let edges: BTreeMap<u64, (u64, u64, bool)> = g.all_edges().into_iter().map(|e| (e.id, (e.from, e.to, e.directed))).collect();
+    // both endpoints of every edge exist; every edge is listed by both endpoints
+    for (id, (from, to, directed)) in &edges {
+        for n in [from, to] {
+            if !g.node_exists(*n) {
+                ctx.fail("edge-endpoint-missing", format!("{when}: edge {id} ({from}->{to}) exists but node {n} does not"))?;
+            }
+        }
+        let mut must: Vec<(u64, Direction, &str)> = vec![(*from, Direction::Outgoing, "outgoing"), (*to, Direction::Incoming, "incoming")];
+        if !directed {
+            must.push((*to, Direction::Outgoing, "outgoing"));
+            must.push((*from, Direction::Incoming, "incoming"));
+        }
+        for (n, dir, name) in must {
+            if !g.node_exists(n) {
+                continue;
+            }
+            let listed = g.edges_of(n, dir).map(|v| v.iter().any(|e| e.id == *id)).unwrap_or(false);
+            if !listed {
+                ctx.fail(
+                    format!("edge-not-listed:{name}"),
+                    format!("{when}: edge {id} ({from}{}{to}) exists but is missing from the {name} list of node {n}", if *directed { "->" } else { "--" }),
+                )?;
+            }
+        }
+    }
+    // every listed edge exists and touches the lister; degrees equal the list sizes
+    let mut nodes: BTreeSet<u64> = g.all_nodes().into_iter().map(|n| n.id).collect();
+    nodes.extend(known_nodes.iter().copied().filter(|n| g.node_exists(*n)));
+    for n in nodes {
+        let out = g.edges_of(n, Direction::Outgoing).unwrap_or_default();
+        let inc = g.edges_of(n, Direction::Incoming).unwrap_or_default();
+        for (list, name) in [(&out, "outgoing"), (&inc, "incoming")] {
+            for e in list.iter() {
+                let ok = match name {
+                    "outgoing" => e.from == n || (!e.directed && e.to == n),
+                    _ => e.to == n || (!e.directed && e.from == n),
+                };
+                if !ok {
+                    ctx.fail(format!("listed-edge-wrong:{name}"), format!("{when}: node {n} lists edge {} ({}->{}) as {name}", e.id, e.from, e.to))?;
+                }
+            }
+        }
+        // degree counts raw list entries: an entry whose edge record is gone is an orphan
+        let od = g.out_degree(n).unwrap_or(0);
+        let idg = g.in_degree(n).unwrap_or(0);
+        if od != out.len() || idg != inc.len() {
+            ctx.fail("orphan-list-entry", format!("{when}: node {n}: out_degree {od} / in_degree {idg} but only {} / {} listed edges exist", out.len(), inc.len()))?;
+        }
+    }
+    Ok(())
+}
+
+// ------------------------------------------------------------------ seq
+
+#[derive(Clone, Debug, Serialize, Deserialize)]
+struct SeqCase {
+    ops: Vec<Op>,
+}
+
+fn seq_strategy(t: Tier) -> impl Strategy<Value = SeqCase> {
+    let max = t.pick(45usize, 70usize);
+    prop::collection::vec(op_strategy(true), 0..max).prop_map(|ops| SeqCase { ops })
+}
+
+fn props(v: i64) -> HashMap<String, PropertyValue> {
+    let mut p = HashMap::new();
+    p.insert("w".to_string(), PropertyValue::Int(v));
+    p
+}
+
+fn seq_check(c: &SeqCase, ctx: &mut CaseCtx) -> Result<(), Fail> {
+    let g = GraphEngine::new();
+    let mut m = Model::default();
+    let mut pool: Vec<u64> = Vec::new(); // every node id ever created (dead ones stay: ops on them must fail)
+    let mut epool: Vec<u64> = Vec::new();
+    for _ in 0..2 {
+        let id = g.create_node("n", props(0)).map_err(|e| Fail::new("harness", e.to_string()))?;
+        m.nodes.insert(id);
+        pool.push(id);
+    }
+    for (k, op) in c.ops.iter().enumerate() {
+        let when = format!("after op {k} {op:?}");
+        match op {
+            Op::CreateNode => {
+                let id = g.create_node("n", props(0)).map_err(|e| Fail::new("create_node-error", e.to_string()))?;
+                m.nodes.insert(id);
+                pool.push(id);
+            },
+            Op::CreateEdge(a, b, t, d) => {
+                let (a, b) = (pool[pick(*a, pool.len())], pool[pick(*b, pool.len())]);
+                let r = g.create_edge(a, b, ty(*t), props(1), *d);
+                let ok = m.nodes.contains(&a) && m.nodes.contains(&b);
+                match (r, ok) {
+                    (Ok(id), true) => {
+                        m.edges.insert(id, MEdge { from: a, to: b, ty: ty(*t).to_string(), directed: *d });
+                        epool.push(id);
+                        if a == b && !*d {
+                            ctx.label("undirected self-loop");
+                            ctx.set_nontrivial();
+                        }
+                        if m.edges.values().filter(|e| (e.from == a && e.to == b) || (e.from == b && e.to == a)).count() >= 2 {
+                            ctx.label("parallel edges");
+                        }
+                    },
+                    (Err(_), false) => {},
+                    (Ok(id), false) => ctx.fail("edge-to-missing-node", format!("{when}: create_edge({a},{b}) returned {id} although an endpoint does not exist"))?,
+                    (Err(e), true) => ctx.fail("create_edge-error", format!("{when}: create_edge({a},{b}) failed: {e}"))?,
+                }
+            },
+            Op::DeleteEdge(e) => {
+                if epool.is_empty() {
+                    continue;
+                }
+                let id = epool[pick(*e, epool.len())];
+                let r = g.delete_edge(id);
+                match (r.is_ok(), m.edges.remove(&id).is_some()) {
+                    (true, true) | (false, false) => {},
+                    (true, false) => ctx.fail("delete_edge-of-missing-ok", format!("{when}: delete_edge({id}) succeeded for an edge that does not exist"))?,
+                    (false, true) => ctx.fail("delete_edge-error", format!("{when}: delete_edge({id}) failed: {:?}", r.err()))?,
+                }
+            },
+            Op::DeleteNode(n) => {
+                let id = pool[pick(*n, pool.len())];
+                let r = g.delete_node(id);
+                let existed = m.nodes.remove(&id);
+                if existed {
+                    let incident: Vec<u64> = m.edges.iter().filter(|(_, e)| e.from == id || e.to == id).map(|(k, _)| *k).collect();
+                    if incident.len() >= 2 {
+                        ctx.label("delete_node with >=2 incident edges");
+                        ctx.set_nontrivial();
+                    }
+                    for k in incident {
+                        m.edges.remove(&k);
+                    }
+                }
+                match (r.is_ok(), existed) {
+                    (true, true) | (false, false) => {},
+                    (true, false) => ctx.fail("delete_node-of-missing-ok", format!("{when}: delete_node({id}) succeeded for a node that does not exist"))?,
+                    (false, true) => ctx.fail("delete_node-error", format!("{when}: delete_node({id}) failed: {:?}", r.err()))?,
+                }
+            },
+            Op::UpdateNode(n, v) => {
+                let id = pool[pick(*n, pool.len())];
+                let r = g.update_node(id, None, props(*v));
+                if r.is_ok() != m.nodes.contains(&id) {
+                    ctx.fail("update_node-result", format!("{when}: update_node({id}) ok={} but node exists={}", r.is_ok(), m.nodes.contains(&id)))?;
+                }
+            },
+            Op::UpdateEdge(e, v) => {
+                if epool.is_empty() {
+                    continue;
+                }
+                let id = epool[pick(*e, epool.len())];
+                let r = g.update_edge(id, props(*v));
+                if r.is_ok() != m.edges.contains_key(&id) {
+                    ctx.fail("update_edge-result", format!("{when}: update_edge({id}) ok={} but edge exists={}", r.is_ok(), m.edges.contains_key(&id)))?;
+                }
+            },
+        }
+        check_against_model(&g, &m, ctx, &when)?;
+        check_structure(&g, &pool, ctx, &when)?;
+        if ctx.known_hit() {
+            return Ok(());
+        }
+    }
+    Ok(())
+}
+
+// ------------------------------------------------------------------ sched
+
+#[derive(Clone, Debug, Serialize, Deserialize)]
+enum TOp {
+    CreateEdge(u8, u8, bool),
+    /// delete the k-th edge this thread created (if any)
+    DeleteOwnEdge(u8),
+    /// delete an edge of the initial graph
+    DeleteInitialEdge(u8),
+    DeleteNode(u8),
+    CreateNode,
+}
+
+#[derive(Clone, Debug, Serialize, Deserialize)]
+struct SchedCase {
+    nodes: u8,
+    /// edges present before the threads start (from, to, directed)
+    initial: Vec<(u8, u8, bool)>,
+    scripts: Vec<Vec<TOp>>,
+    schedule: Vec<u16>,
+    /// false = create-only scripts (exact final edge set is known)
+    deletes: bool,
+}
+
+fn sched_strategy(t: Tier) -> impl Strategy<Value = SchedCase> {
+    let max_threads = t.pick(5usize, 8usize);
+    (2u8..=5, any::<bool>()).prop_flat_map(move |(nodes, deletes)| {
+        let ep = prop_oneof![3 => Just(0u8), 2 => 0..nodes];
+        let ep2 = prop_oneof![1 => Just(0u8), 3 => 0..nodes];
+        let top = if deletes {
+            prop_oneof![
+                8 => (ep.clone(), ep2.clone(), any::<bool>()).prop_map(|(a, b, d)| TOp::CreateEdge(a, b, d)),
+                2 => (0u8..4).prop_map(TOp::DeleteOwnEdge),
+                2 => (0u8..4).prop_map(TOp::DeleteInitialEdge),
+                1 => (1..nodes).prop_map(TOp::DeleteNode),
+                1 => Just(TOp::CreateNode),
+            ]
+            .boxed()
+        } else {
+            (ep.clone(), ep2.clone(), any::<bool>()).prop_map(|(a, b, d)| TOp::CreateEdge(a, b, d)).boxed()
+        };
+        (
+            Just(nodes),
+            prop::collection::vec((0..nodes, 0..nodes, any::<bool>()), 0..4),
+            prop::collection::vec(prop::collection::vec(top, 1..5), 2..=max_threads),
+            prop::collection::vec(any::<u16>(), 0..60),
+            Just(deletes),
+        )
+    })
+    .prop_map(|(nodes, initial, scripts, schedule, deletes)| SchedCase { nodes, initial, scripts, schedule, deletes })
+}
+
+#[derive(Default)]
+struct ThreadLog {
+    created: Vec<(u64, u64, u64, bool)>, // (edge id, from, to, directed)
+    deleted_edges: Vec<u64>,
+    deleted_nodes: Vec<u64>,
+}
+
+fn sched_check(c: &SchedCase, ctx: &mut CaseCtx, site: &'static str) -> Result<(), Fail> {
+    let g = Arc::new(GraphEngine::new());
+    let mut nodes: Vec<u64> = Vec::new();
+    for _ in 0..c.nodes {
+        nodes.push(g.create_node("n", HashMap::new()).map_err(|e| Fail::new("harness", e.to_string()))?);
+    }
+    let mut initial_edges: Vec<(u64, u64, u64, bool)> = Vec::new();
+    for (a, b, d) in &c.initial {
+        let (a, b) = (nodes[*a as usize % nodes.len()], nodes[*b as usize % nodes.len()]);
+        let id = g.create_edge(a, b, "init", HashMap::new(), *d).map_err(|e| Fail::new("harness", e.to_string()))?;
+        initial_edges.push((id, a, b, *d));
+    }
+    let logs: Vec<Arc<Mutex<ThreadLog>>> = c.scripts.iter().map(|_| Arc::new(Mutex::new(ThreadLog::default()))).collect();
+    let mut scripts: Vec<Box<dyn FnOnce() + Send>> = Vec::new();
+    for (ti, script) in c.scripts.iter().enumerate() {
+        let g = g.clone();
+        let log = logs[ti].clone();
+        let nodes = nodes.clone();
+        let initial_edges = initial_edges.clone();
+        let script = script.clone();
+        scripts.push(Box::new(move || {
+            for op in script {
+                sched::op_boundary();
+                match op {
+                    TOp::CreateEdge(a, b, d) => {
+                        let (a, b) = (nodes[a as usize % nodes.len()], nodes[b as usize % nodes.len()]);
+                        if let Ok(id) = g.create_edge(a, b, "t", HashMap::new(), d) {
+                            log.lock().unwrap().created.push((id, a, b, d));
+                        }
+                    },
+                    TOp::DeleteOwnEdge(k) => {
+                        let id = { let l = log.lock().unwrap(); l.created.get(k as usize % l.created.len().max(1)).map(|x| x.0) };
+                        if let Some(id) = id {
+                            if g.delete_edge(id).is_ok() {
+                                log.lock().unwrap().deleted_edges.push(id);
+                            }
+                        }
+                    },
+                    TOp::DeleteInitialEdge(k) => {
+                        if !initial_edges.is_empty() {
+                            let id = initial_edges[k as usize % initial_edges.len()].0;
+                            if g.delete_edge(id).is_ok() {
+                                log.lock().unwrap().deleted_edges.push(id);
+                            }
+                        }
+                    },
+                    TOp::DeleteNode(n) => {
+                        let id = nodes[n as usize % nodes.len()];
+                        if g.delete_node(id).is_ok() {
+                            log.lock().unwrap().deleted_nodes.push(id);
+                        }
+                    },
+                    TOp::CreateNode => {
+                        let _ = g.create_node("n", HashMap::new());
+                    },
+                }
+            }
+        }));
+    }
+    let report = sched::run(scripts, &c.schedule, &[site], Duration::from_millis(40));
+    if let Some((t, msg)) = report.panics.first() {
+        ctx.fail("panic-in-thread", format!("thread {t} panicked: {msg}"))?;
+    }
+    let overlaps = report.overlaps(site);
+    if overlaps > 0 {
+        ctx.label(if site == "graph.adj.rmw" { "two threads inside the adjacency RMW window" } else { "two threads about to update an adjacency list" });
+        ctx.set_nontrivial();
+    }
+    if report.blocked_events > 0 {
+        ctx.label("scheduler: granted thread blocked on a product lock");
+    }
+    ctx.label(if c.deletes { "scripts with deletes" } else { "create-only scripts" });
+    ctx.note = Some(serde_json::json!({"yields": report.trace.len(), "overlaps": overlaps}));
+    // quiescence
+    // create_edge has no exclusion against a concurrent delete_node (recorded finding): every
+    // structural failure of a case that runs delete_node next to other writers is keyed apart
+    let with_dn = c.scripts.iter().flatten().any(|o| matches!(o, TOp::DeleteNode(_)));
+    let when = if with_dn { "at quiescence (a delete_node ran concurrently)" } else { "at quiescence" };
+    let mut sub = Collector { inner: ctx, suffix: if with_dn { ":with-concurrent-delete-node" } else { "" } };
+    let ctx = &mut sub;
+    let deleted_edges: BTreeSet<u64> = logs.iter().flat_map(|l| l.lock().unwrap().deleted_edges.clone()).collect();
+    let deleted_nodes: BTreeSet<u64> = logs.iter().flat_map(|l| l.lock().unwrap().deleted_nodes.clone()).collect();
+    // every edge whose creation returned Ok, that nobody deleted and whose endpoints nobody deleted, must exist fully linked
+    let mut expect: Vec<(u64, u64, u64, bool)> = initial_edges.clone();
+    for l in &logs {
+        expect.extend(l.lock().unwrap().created.iter().copied());
+    }
+    for (id, from, to, directed) in &expect {
+        if deleted_edges.contains(id) || deleted_nodes.contains(from) || deleted_nodes.contains(to) {
+            continue;
+        }
+        if g.get_edge(*id).is_err() {
+            ctx.fail("created-edge-vanished", format!("{when}: edge {id} ({from}->{to}) was created successfully and never deleted, but get_edge fails"))?;
+            continue;
+        }
+        let mut must: Vec<(u64, Direction, &str)> = vec![(*from, Direction::Outgoing, "outgoing"), (*to, Direction::Incoming, "incoming")];
+        if !directed {
+            must.push((*to, Direction::Outgoing, "outgoing"));
+            must.push((*from, Direction::Incoming, "incoming"));
+        }
+        for (n, dir, name) in must {
+            let listed = g.edges_of(n, dir).map(|v| v.iter().any(|e| e.id == *id)).unwrap_or(false);
+            if !listed {
+                ctx.fail(
+                    format!("edge-not-listed:{name}:concurrent"),
+                    format!("{when}: edge {id} ({from}->{to}, directed={directed}) was created successfully, but node {n} does not list it as {name} ({} overlapping read-modify-writes in this schedule)", overlaps),
+                )?;
+            }
+        }
+    }
+    for id in &deleted_edges {
+        if g.get_edge(*id).is_ok() {
+            ctx.fail("deleted-edge-exists", format!("{when}: delete_edge({id}) returned Ok but the edge still exists"))?;
+        }
+    }
+    if ctx.inner.known_hit() {
+        return Ok(());
+    }
+    let suffix = ctx.suffix;
+    let mut tmp = CaseCtx::new(&EMPTY, true);
+    if let Err(f) = check_structure(&g, &nodes, &mut tmp, when) {
+        ctx.inner.fail(format!("{}{}", f.sig, suffix), f.msg)?;
+    }
+    Ok(())
+}
+
+static EMPTY: std::sync::LazyLock<nv_engine::Findings> = std::sync::LazyLock::new(nv_engine::Findings::default);
+
+/// Adds a categorical suffix to every signature reported through it.
+struct Collector<'a, 'b> {
+    inner: &'a mut CaseCtx<'b>,
+    suffix: &'static str,
+}
+
+impl Collector<'_, '_> {
+    fn fail(&mut self, sig: impl Into<String>, msg: impl Into<String>) -> Result<(), Fail> {
+        if self.inner.known_hit() {
+            return Ok(());
+        }
+        self.inner.fail(format!("{}{}", sig.into(), self.suffix), msg)
+    }
+}
+
+// ------------------------------------------------------------------ stress
+
+fn stress_part() -> CustomPart {
+    CustomPart {
+        name: "stress",
+        run: Box::new(|cfg, findings, stats| {
+            let rounds = cfg.cases(6, 60);
+            for r in 0..rounds {
+                let threads = 2 + (r as usize % 7);
+                let per = 40usize;
+                let g = Arc::new(GraphEngine::new());
+                let hub = g.create_node("hub", HashMap::new()).unwrap();
+                let leaves: Vec<u64> = (0..threads).map(|_| g.create_node("leaf", HashMap::new()).unwrap()).collect();
+                let barrier = Arc::new(std::sync::Barrier::new(threads));
+                let hs: Vec<_> = (0..threads)
+                    .map(|t| {
+                        let (g, barrier, leaf) = (g.clone(), barrier.clone(), leaves[t]);
+                        std::thread::spawn(move || {
+                            barrier.wait();
+                            let mut ids = Vec::new();
+                            for k in 0..per {
+                                let r = if k % 2 == 0 { g.create_edge(hub, leaf, "s", HashMap::new(), true) } else { g.create_edge(leaf, hub, "s", HashMap::new(), k % 4 == 1) };
+                                if let Ok(id) = r {
+                                    ids.push(id);
+                                }
+                            }
+                            ids
+                        })
+                    })
+                    .collect();
+                let created: Vec<u64> = hs.into_iter().flat_map(|h| h.join().unwrap_or_default()).collect();
+                stats.evaluations += 1;
+                stats.nontrivial.insert(nv_engine::fnv64(format!("{r}-{threads}").as_bytes()));
+                let mut ctx = CaseCtx::new(findings, false);
+                let mut fail: Option<Fail> = None;
+                let listed: BTreeSet<u64> = g.edges_of(hub, Direction::Both).unwrap_or_default().into_iter().map(|e| e.id).collect();
+                let missing: Vec<u64> = created.iter().copied().filter(|id| !listed.contains(id)).collect();
+                if !missing.is_empty() {
+                    fail = ctx
+                        .fail("edge-not-listed:stress", format!("{} of {} edges created concurrently by {threads} threads are missing from the hub's adjacency lists (e.g. {:?})", missing.len(), created.len(), &missing[..missing.len().min(5)]))
+                        .err();
+                }
+                if fail.is_none() {
+                    fail = check_structure(&g, &[], &mut ctx, "after the stress round").err();
+                }
+                if ctx.known_hit() {
+                    stats.excluded("edge-not-listed:stress");
+                }
+                if stats.samples.is_empty() {
+                    stats.sample(serde_json::json!({"threads": threads, "edges_per_thread": per, "created": created.len(), "listed_at_hub": listed.len()}));
+                }
+                if let Some(f) = fail {
+                    let case = serde_json::json!({"threads": threads, "per": per, "created": created.len(), "missing": missing});
+                    let path = nv_engine::runner::write_replay(cfg, "stress", &f, &case);
+                    return Some(Violation { part: "stress".into(), sig: f.sig, msg: f.msg, replay: path });
+                }
+            }
+            None
+        }),
+        replay: Box::new(|case, _f, _s| {
+            // the failing unit of a real-thread run is the recorded outcome; re-validate it
+            let missing = case["missing"].as_array().map(|a| a.len()).unwrap_or(0);
+            if missing > 0 {
+                Err(Fail::new("edge-not-listed:stress", format!("recorded run lost {missing} adjacency entries")))
+            } else {
+                Ok(())
+            }
+        }),
+    }
+}
+
+fn main() {
+    main_for(PropDef {
+        id: "C05",
+        level: "exploration",
+        rule: "seq: 0..45 (70) node/edge create/update/delete ops incl. self-loops and parallel edges, all read APIs compared with a model edge set after every op; non-trivial = a delete_node with >=2 incident edges or an undirected self-loop. sched: 2..5 (8) scripted threads of 1..4 ops over <=5 shared nodes (hub likely) under the deterministic scheduler with the graph.adj.rmw yield point; non-trivial = a schedule in which two threads are inside the adjacency read-modify-write window at the same time (scheduler-reported). stress: real threads on one hub. distinct = distinct generated case",
+        assumptions: vec![
+            "the scheduler owns the interleaving only at graph.adj.rmw and at operation boundaries; races in other windows are reachable only by the stress part (probabilistic)",
+            "in concurrent cases the expected edges are those whose create returned Ok and that no successful delete (edge or endpoint) touched; other claims are order-free structural invariants",
+            "out_degree/in_degree count list entries: an entry whose edge record is gone counts as an orphan",
+        ],
+        parts: vec![
+            PropPart::new("seq", 8000, 300_000, seq_strategy, seq_check).boxed(),
+            // list-operation granularity: yields before each adjacency update (outside any lock): deterministic
+            PropPart::new("sched", 8000, 300_000, sched_strategy, |c: &SchedCase, ctx: &mut CaseCtx| sched_check(c, ctx, "graph.adj.pre")).shrink_iters(400).boxed(),
+            // inside the read-modify-write window: with the window locked, parked holders make other
+            // threads block and the scheduler falls back to its grace period (slower, fewer cases)
+            PropPart::new("sched_rmw", 500, 20_000, sched_strategy, |c: &SchedCase, ctx: &mut CaseCtx| sched_check(c, ctx, "graph.adj.rmw")).shrink_iters(150).boxed(),
+            Box::new(stress_part()),
+        ],
+        children: vec![],
+    });
+}
